@@ -39,20 +39,23 @@ import (
 
 type c05Call struct {
 	Lat  time.Duration `json:"lat"`
-	Kind string        `json:"kind,omitempty"` // "" full block | error | e400 | hang
+	Kind string        `json:"kind,omitempty"` // "" full block | error | e400 | hang | nodata (answers, but without a block)
 }
 
 type c05Duty struct {
-	Slot          uint64        `json:"slot"`
-	Index         uint64        `json:"index"`
-	Key           int           `json:"key"`
-	Account       int           `json:"account"`           // env.AccountKind
-	Prepare       string        `json:"prepare,omitempty"` // "" ok | noaccount | accerror | randaoerror
-	ProposeAnyway bool          `json:"propose_anyway,omitempty"`
-	Version       int           `json:"version"`
-	Blinded       bool          `json:"blinded,omitempty"`
-	SlotDelta     int64         `json:"slot_delta,omitempty"` // proposal slot - duty slot
-	Proposal      string        `json:"proposal,omitempty"`   // "" ok | error
+	Slot          uint64 `json:"slot"`
+	Index         uint64 `json:"index"`
+	Key           int    `json:"key"`
+	Account       int    `json:"account"`           // env.AccountKind
+	Prepare       string `json:"prepare,omitempty"` // "" ok | noaccount | accerror | randaoerror
+	ProposeAnyway bool   `json:"propose_anyway,omitempty"`
+	Version       int    `json:"version"`
+	Blinded       bool   `json:"blinded,omitempty"`
+	SlotDelta     int64  `json:"slot_delta,omitempty"` // proposal slot - duty slot
+	// BlockProposer: the proposer_index the obtained block names (0: the duty's validator).  A node on another
+	// fork, or a strategy, may hand out a block for the duty's slot that names another validator.
+	BlockProposer uint64        `json:"block_proposer,omitempty"`
+	Proposal      string        `json:"proposal,omitempty"` // "" ok | error
 	ProposalLat   time.Duration `json:"proposal_lat,omitempty"`
 	Content       int           `json:"content"`
 	Graffiti      string        `json:"graffiti"`          // none | ok | error | long | client
@@ -60,7 +63,7 @@ type c05Duty struct {
 	AuctionLat    time.Duration `json:"auction_lat,omitempty"`
 	NProv         int           `json:"n_prov,omitempty"`
 	NAll          int           `json:"n_all,omitempty"`
-	Unblind       [][]c05Call   `json:"unblind,omitempty"` // per relay, per call
+	Unblind       [][]c05Call   `json:"unblind,omitempty"`    // per relay, per call
 	BlockSign     string        `json:"block_sign,omitempty"` // "" ok | error
 	Submit        string        `json:"submit,omitempty"`     // "" ok | error
 	// CancelAfter: the context Propose runs under is cancelled this long after the slot start (0: never), as when vouch shuts down.
@@ -108,6 +111,10 @@ func c05GenPlan(p *simrt.Tape, probe bool) *c05Plan {
 		if p.Pct(12) {
 			d.SlotDelta = []int64{1, -1, 8, -2}[p.Pick(4)]
 		}
+		if p.Pct(12) {
+			// another validator of the plan (the second duty's, whether or not it exists in this plan), an unknown one, a neighbour
+			d.BlockProposer = []uint64{uint64(11 * (2 - j)), 999, d.Index + 1}[p.Pick(3)]
+		}
 		if p.Pct(6) {
 			d.Proposal = "error"
 		}
@@ -140,8 +147,20 @@ func c05GenPlan(p *simrt.Tape, probe bool) *c05Plan {
 			}
 		}
 		if d.Blinded {
-			same := p.Pct(40)
+			mode := p.Draw(100)
+			same := mode < 35
+			// giveUp: one relay ends up without a block early (an answer without data, or a failure on every
+			// attempt), the others hold the block but answer later; every relay is asked.
+			giveUp := !same && mode < 55 && pl.NRelays >= 2 && (d.Auction == "" || d.Auction == "nowinner")
 			sameLat := lats[p.Pick(3)]
+			quitter, style := 0, 0
+			if giveUp {
+				quitter, style = p.Pick(pl.NRelays), p.Pick(3)
+				d.NAll = pl.NRelays
+				if d.Auction == "" {
+					d.NProv = pl.NRelays
+				}
+			}
 			for i := 0; i < pl.NRelays; i++ {
 				var calls []c05Call
 				for k := 0; k < 3; k++ {
@@ -150,13 +169,29 @@ func c05GenPlan(p *simrt.Tape, probe bool) *c05Plan {
 					switch {
 					case same:
 						c.Lat = sameLat
+					case giveUp && i == quitter:
+						c.Lat = lats[r%3]
+						switch {
+						case style == 0 || (style == 2 && k > 0):
+							c.Kind = "nodata"
+						default:
+							c.Kind = "error"
+						}
+					case giveUp:
+						if k == 0 && r < 30 {
+							c.Kind = "error"
+						} else {
+							c.Lat = lats[3+r%3]
+						}
 					case r < 45:
-					case r < 70:
+					case r < 65:
 						c.Kind = "error"
-					case r < 85:
+					case r < 80:
 						c.Kind = "e400"
-					default:
+					case r < 90:
 						c.Kind = "hang"
+					default:
+						c.Kind = "nodata"
 					}
 					calls = append(calls, c)
 				}
@@ -211,7 +246,7 @@ type c05UnblindCall struct {
 	nilBlock      bool
 	view          *c05View
 	sig           phase0.BLSSignature
-	outcome       string // ok | error | e400 | hang | client-refused | unknown-block | cancelled
+	outcome       string // ok | error | e400 | hang | nodata | client-refused | unknown-block | cancelled
 	resp          *api.VersionedSignedProposal
 	respJSON      string
 	respSide      string
@@ -245,6 +280,8 @@ type c05DutyRun struct {
 	graffitiCalls   int
 	auctionCalls    int
 	auctionKeyOK    bool
+	cancelled       bool // the context Propose runs under was cancelled, at cancelT
+	cancelT         time.Duration
 }
 
 type c05Hist struct {
@@ -338,7 +375,11 @@ func (n *c05Node) Proposal(ctx context.Context, opts *api.ProposalOpts) (*api.Re
 		return nil, err
 	}
 	d := &n.h.pl.Duties[rec.duty]
-	p := c05Proposal(d.Version, d.Blinded, c05Hdr{slot: phase0.Slot(int64(d.Slot) + d.SlotDelta), proposer: phase0.ValidatorIndex(d.Index), randao: opts.RandaoReveal, graffiti: opts.Graffiti, content: d.Content})
+	named := d.Index
+	if d.BlockProposer != 0 {
+		named = d.BlockProposer
+	}
+	p := c05Proposal(d.Version, d.Blinded, c05Hdr{slot: phase0.Slot(int64(d.Slot) + d.SlotDelta), proposer: phase0.ValidatorIndex(named), randao: opts.RandaoReveal, graffiti: opts.Graffiti, content: d.Content})
 	v, verr := c05MsgView(c05ProposalMsg(p))
 	if verr != nil {
 		panic(verr)
@@ -475,6 +516,12 @@ func (r *c05RelayStub) UnblindProposal(ctx context.Context, opts *builderapi.Unb
 		}
 		return nil, err
 	}
+	if o.Kind == "odd" && o.Variant == 1 {
+		// the relay answers, but there is no block in the answer
+		simrt.Probe("fault:UnblindProposal-nodata")
+		finish("nodata")
+		return &builderapi.Response[*api.VersionedSignedProposal]{Metadata: map[string]any{}}, nil
+	}
 	if o.Kind == "odd" {
 		finish("e400")
 		return nil, e400()
@@ -597,6 +644,8 @@ func c05Exec(plan any, sched *simrt.Tape) *sim.Outcome {
 						o.Kind = c.Kind
 					case "e400":
 						o.Kind = "odd"
+					case "nodata":
+						o.Kind, o.Variant = "odd", 1
 					}
 					key := fmt.Sprintf("relay%d/d%d/UnblindProposal", i, j)
 					sc.Outcomes[key] = append(sc.Outcomes[key], o)
@@ -655,6 +704,7 @@ func c05Exec(plan any, sched *simrt.Tape) *sim.Outcome {
 					simrt.Go(fmt.Sprintf("cancel%d", j), func() {
 						if simrt.Sleep(pctx, d.CancelAfter, "c05/cancel") == nil {
 							simrt.Probe("fault:propose-context-cancelled")
+							simrt.Crit(func() { dr.cancelled, dr.cancelT = true, simrt.Now() })
 							cancel()
 						}
 					})
@@ -798,6 +848,20 @@ func c05Oracle(h *c05Hist, log *SignerLog, out *sim.Outcome) *simrt.Violation {
 		}
 		if match != nil {
 			return Viol("C05/signed-proposal-of-another-slot", "duty slot %d validator %d: the signer was asked (%s, request %d) to sign under the duty slot the roots of a proposal that is for slot %d", d.Slot, d.Index, r.Method, r.Seq, match.view.slot)
+		}
+		// a block signature may only be asked for the duty's validator: not for whichever validator the obtained block names
+		if r.Method == "SignBeaconProposal" && r.ProposerIndex != d.Index {
+			return Viol("C05/signed-block-of-another-validator", "duty slot %d validator %d: the signer was asked (SignBeaconProposal, request %d) for a block signature naming proposer %d", d.Slot, d.Index, r.Seq, r.ProposerIndex)
+		}
+		for _, p := range h.props {
+			if p.duty != j || p.view == nil || p.view.proposer == d.Index {
+				continue
+			}
+			named := *d
+			named.Index = p.view.proposer
+			if c05IsBlockReq(ch, r, &named, d.Slot, p.view) || c05IsBlockReq(ch, r, &named, p.view.slot, p.view) {
+				return Viol("C05/signed-block-of-another-validator", "duty slot %d validator %d: the signer was asked (%s, request %d) to sign a block header naming proposer %d, the index found in the obtained block", d.Slot, d.Index, r.Method, r.Seq, p.view.proposer)
+			}
 		}
 		for _, p := range h.props {
 			if p.duty == j && p.view != nil && c05IsBlockReq(ch, r, d, p.view.slot, p.view) {
@@ -994,6 +1058,44 @@ func c05Oracle(h *c05Hist, log *SignerLog, out *sim.Outcome) *simrt.Violation {
 		}
 		if d.SlotDelta != 0 && prop.view != nil {
 			out.Probes["proposal-for-another-slot-refused"]++
+		}
+		if prop.view != nil && prop.view.proposer != d.Index {
+			out.Probes["obtained-block-names-another-validator"]++
+			if subsOf[j] > 0 {
+				out.Probes["block-naming-another-validator-submitted"]++
+			}
+		}
+		// a relay that was sent the signed blinded block returned the full block while the proposal was still
+		// wanted (its context not cancelled): that block is owed to the submitter, whatever the other relays did
+		// before (this is judged on what the relays answered, not on the plan).
+		if d.Blinded {
+			var got *c05UnblindCall
+			gaveUpFirst := false
+			for _, u := range h.unblinds {
+				if u.duty != j {
+					continue
+				}
+				if u.outcome == "ok" && (!dr.cancelled || u.endT < dr.cancelT) && (got == nil || u.endStep < got.endStep) {
+					got = u
+				}
+			}
+			if got != nil {
+				for _, u := range h.unblinds {
+					if u.duty == j && u.relay != got.relay && u.endStep < got.endStep && (u.outcome == "nodata" || u.outcome == "error" || u.outcome == "hang") {
+						gaveUpFirst = true
+					}
+				}
+				if gaveUpFirst {
+					out.Probes["relay-failed-before-another-returned-the-block"]++
+				}
+				if subsOf[j] == 0 {
+					kind := "C05/relay-block-not-submitted"
+					if gaveUpFirst {
+						kind = "C05/relay-block-not-submitted-after-another-relay-failed"
+					}
+					return Viol(kind, "duty slot %d (blinded %s): relay%d returned the full block for the signed blinded block at %v, but nothing was submitted", d.Slot, c05Versions[d.Version], got.relay, got.endT)
+				}
+			}
 		}
 		// must a block have been submitted?
 		expect := d.Proposal == "" && d.SlotDelta == 0 && d.BlockSign == "" && d.CancelAfter == 0
